@@ -178,6 +178,70 @@ def run_sim(tier, repo, procs=16):
     return tot
 
 
+RE = {"quick": [dict(name="ops-re3", N=3, MaxLen=2)], "thorough": [dict(name="ops-re3", N=3, MaxLen=3), dict(name="ops-re4", N=4, MaxLen=1)]}
+RE_OTHERS = ("node", "anynode", "symlink", "adv:alwayseq:mixin", "adv:falsy:light")
+_rememo = {}
+
+
+def run_re_model(c, asrt):
+    cfg = T.cfg_text(
+        {"Node": T.mv_set("n", c["N"]), "Nil": T.Raw("Nil"), "NonNode": T.Raw("NonNode"), "MaxStack": 12,
+         "MaxLen": c["MaxLen"], "FaultMode": 0, "Strict": True, "Asrt": asrt, "WithNonNode": False, "WithCtor": False, "CheckIndep": False},
+        next_="ReNext", view="View", symmetry="Sym", properties=("Thm_Re",), action_constraints=("ReEmit",), deadlock=False)
+    return T.run_vectors("MC_OpsRe", cfg, c["name"] + ("-asrt" if asrt else ""), lambda st: st["generated"] - 1)
+
+
+def run_re(tier, repo=None, procs=16):
+    """Re-entrant hooks (MC_OpsRe): for every hook invocation of every call, every call `m.parent = w` the hook could make."""
+    repo = repo or core.repo_path()
+    if (tier, repo) in _rememo:
+        return _rememo[(tier, repo)]
+    outcomes = []
+    for c in RE[tier]:
+        for asrt in (False, True):
+            stats = run_re_model(c, asrt)
+            lines = T.read_lines(stats["lines_path"])
+            jobs = [(lines, list(PLAIN), [PLAIN], asrt)] + ([(lines[core.seed() % 2::2], list(RE_OTHERS), None, asrt)] if not asrt else [])
+            for sub, fams, lock, a in jobs:
+                with core.pool(ops_replay.worker_init, (repo, a), procs) as p:
+                    size = max(50, min(1000, len(sub) // (procs * 4) + 1))
+                    parts = core.pmap(p, ops_replay.replay_chunk_re, [(ch, fams, lock) for ch in core.chunks(sub, size)])
+                tot = {"n": 0, "same": 0, "attention": [], "per_family": {}, "lockstep_diff": [], "dropped": 0, "corrupting": 0,
+                       "noninterfering": 0, "nested_raises": 0, "cyclic_skipped": 0}
+                for r in parts:
+                    for k in ("n", "same", "dropped", "corrupting", "noninterfering", "nested_raises", "cyclic_skipped"):
+                        tot[k] += r[k]
+                    tot["attention"] += r["attention"]
+                    tot["lockstep_diff"] += r["lockstep_diff"]
+                    for f, k in r["per_family"].items():
+                        tot["per_family"][f] = tot["per_family"].get(f, 0) + k
+                tot.update(config=dict(c, name=c["name"] + ("-asrt" if asrt else "")), asrt=a, tlc=stats, families=fams, vectors=len(sub))
+                if tot["same"] > 0.9 * tot["n"] and not (tot["noninterfering"] and tot["corrupting"] and tot["nested_raises"]):
+                    # vacuity control (on conforming code): acting hooks that interfere, that do not, and nested calls that are refused
+                    raise T.MachineryError("%s: the re-entrant vectors do not exercise all classes: %s" % (c["name"], {k: tot[k] for k in ("noninterfering", "corrupting", "nested_raises")}))
+                outcomes.append(tot)
+    events, index = [], {}
+    for oi, out in enumerate(outcomes):
+        for ai, att in enumerate(out["attention"][:400]):
+            o = att["obs"]
+            eid = "r%d.%d" % (oi, ai)
+            events.append({"id": eid, "k": o["k"], "n": o["n"], "v": o.get("v", "Nil"), "xs": list(o.get("xs", [])),
+                           "plan": {"ak": o["plan"]["ak"], "am": o["plan"]["am"], "av": o["plan"]["av"]},
+                           "strict": not att["family"].endswith("light"), "asrt": bool(out["asrt"]),
+                           "prepar": o["prepar"], "prech": o["prech"], "postpar": o["postpar"], "postch": o["postch"],
+                           "exc": o["exc"], "src": int(o.get("src", 0)),
+                           "log": [{"h": x["h"], "n": x["n"], "a": list(x["a"]), "r": bool(x["r"]), "par": x.get("par", {}), "ch": x.get("ch", {})} for x in o["log"]],
+                           "nest": {"lo": o["nest"]["lo"], "hi": o["nest"]["hi"], "exc": o["nest"]["exc"],
+                                    "par": o["nest"]["par"] or {}, "ch": o["nest"]["ch"] or {}}})
+            index[eid] = att
+    if events:
+        verdicts, _ = judge.run_judge("TraceOpsRe", events, {"Nil": "Nil", "NonNode": "NonNode", "MaxStack": 12}, tag="judge-ops-re")
+        for i, v in verdicts.items():
+            index[i]["verdict"] = {"violated": sorted(v - {"explained"}), "explained": "explained" in v}
+    _rememo[(tier, repo)] = outcomes
+    return outcomes
+
+
 MAX_JUDGED = 3000
 
 
